@@ -61,7 +61,7 @@ func runLockup(seed uint64, n int, outDir string, replay string) {
 			defer func() {
 				if p := recover(); p != nil {
 					o.Violate("lockup-panic", fmt.Sprintf("panic: %v at %s", p, stackTop()))
-					ans(fmt.Sprintf("panic %v", p))
+					o.Pad("panic %v", p)
 				}
 			}()
 			mdb := rawdb.NewMemoryDatabase(log.Global)
